@@ -146,6 +146,17 @@ func (w *world) specHead(reps []*gocql.HostInfo) []*gocql.HostInfo {
 	return head
 }
 
+func hasDup(l []*gocql.HostInfo) bool {
+	seen := map[*gocql.HostInfo]bool{}
+	for _, h := range l {
+		if seen[h] {
+			return true
+		}
+		seen[h] = true
+	}
+	return false
+}
+
 // hasGap: a farther tier has a replica while a nearer remote tier has none (the state of KF-C11-1)
 func (w *world) hasGap(reps []*gocql.HostInfo) bool {
 	if !w.nonlocal {
@@ -383,8 +394,13 @@ func (w *world) exec(op string) (res string) {
 		limit := atoi(f[3])
 		// the specified head is computed BEFORE the pick (state of the hosts as the iterator will see it)
 		var head []*gocql.HostInfo
-		if reps, known, _ := w.specReplicas(f[1], f[2], f[4]); known {
+		dupReps := false
+		// (a replica list with duplicates - the C10 defect's business, excluded from the uniqueness theorems -
+		// is left to the model-vs-code comparison)
+		if reps, known, _ := w.specReplicas(f[1], f[2], f[4]); known && !hasDup(reps) {
 			head = w.specHead(reps)
+		} else if known {
+			dupReps = true
 		}
 		it := w.pol.Pick(gocql.VerifQuery(ksName, rk))
 		var got []*gocql.HostInfo
@@ -394,11 +410,11 @@ func (w *world) exec(op string) (res string) {
 				break
 			}
 			if sh.Info() == nil {
-				return "nilhost"
+				return "crash:property violated on the real code: nil host offered"
 			}
 			got = append(got, sh.Info())
 			if n > 500 {
-				return "inf"
+				return "crash:property violated on the real code: the iterator does not end"
 			}
 		}
 		// the property itself, evaluated on the real sequence: the replica phases (every pick) ...
@@ -413,7 +429,7 @@ func (w *world) exec(op string) (res string) {
 		}
 		// ... and on a full drain: only up hosts, every up host, no host twice
 		if limit >= 1000 {
-			if v := w.oracle(got); v != "" {
+			if v := w.oracle(got, len(head), dupReps); v != "" {
 				return "crash:property violated on the real code: " + v + " offered=" + w.showIDs(got)
 			}
 		}
@@ -425,8 +441,10 @@ func (w *world) exec(op string) (res string) {
 }
 
 // oracle checks the property itself on a fully drained sequence of the real iterator: only up hosts,
-// every up host of the policy's lists, and (bare round-robin based policies) no host twice.
-func (w *world) oracle(got []*gocql.HostInfo) string {
+// every up host of the policy's lists, no host twice (token-aware: unless the replica list itself has a
+// duplicate), and after the replica phases (the first nHead hosts) nearer tiers before farther ones
+// (theorems C11_policy_all_states, C11_tokenaware_all_states).
+func (w *world) oracle(got []*gocql.HostInfo, nHead int, dupReps bool) string {
 	seen := map[*gocql.HostInfo]int{}
 	for _, h := range got {
 		if !h.IsUp() {
@@ -434,7 +452,7 @@ func (w *world) oracle(got []*gocql.HostInfo) string {
 		}
 		seen[h]++
 	}
-	layers, _, isTA := gocql.VerifPolicyLists(w.pol)
+	layers, _, _ := gocql.VerifPolicyLists(w.pol)
 	for _, l := range layers {
 		for _, h := range l {
 			if h != nil && h.IsUp() && seen[h] == 0 {
@@ -442,10 +460,15 @@ func (w *world) oracle(got []*gocql.HostInfo) string {
 			}
 		}
 	}
-	if !isTA {
+	if !dupReps {
 		for _, n := range seen {
 			if n > 1 {
 				return "host offered twice"
+			}
+		}
+		for i := nHead + 1; i < len(got); i++ {
+			if w.tier(got[i-1]) > w.tier(got[i]) {
+				return "farther tier offered before a nearer one after the replica phases"
 			}
 		}
 	}
@@ -648,13 +671,17 @@ func (g *gen) pick() {
 		cls += "/emptyring"
 	} else if known && g.w.hasGap(reps) {
 		cls += "/tiergap"
+		if hasDup(reps) {
+			cls += "-dup"
+		}
 	}
 	g.emit(fmt.Sprintf("pick %s %s %d %s", ks, tk, limit, perms), cls, true)
 }
 
 // exhaustive small scope (thorough): token-aware over every fallback kind, with and without non-local
 // fallback, 4 hosts with every assignment of (dc, rack) in {(0,0),(0,1),(1,0)}, every up/down pattern,
-// every replica list of at most 2 distinct hosts; full drain of one pick each.
+// every replica list of at most 2 distinct hosts; full drain of one pick each; plus, per up/down pattern,
+// a pick on a keyspace without replica table (empty token ring: the state of the fixed finding KF-C11-2).
 func exhaustive(g *gen) {
 	places := [][2]int{{0, 0}, {0, 1}, {1, 0}}
 	var repls []string
@@ -686,6 +713,9 @@ func exhaustive(g *gen) {
 						g.emit("repl 0 500:"+rp, "exh/repl", false)
 						g.emit("pick 0 100 1000 -", "exh/pick/"+kind, true)
 					}
+					// keyspace without replica table, no host has tokens: the empty-ring state of KF-C11-2
+					g.emit("pick 1 100 1000 -", "exh/pick/"+kind+"/emptyring", true)
+					g.emit("pick 1 100 1 -", "exh/pick/"+kind+"/emptyring", true)
 				}
 			}
 		}
